@@ -44,6 +44,18 @@ theorem other_password_does_not_unlock (c : CipherId) (alg : Nat) (pw pw' salt :
   apply decrypt_other_key_fails
   simp [derive, h]
 
+/-- C10/3b.  The password check used as a permission gate (`Vault::verify`, behind
+`AccessPoint::verify` and the account's `verify`) accepts the folder's own password and no
+other. -/
+theorem own_password_verifies (c : CipherId) (alg : Nat) (pw salt : Bytes) (seed : Option Bytes) (n : Nat) (pt : Bytes) :
+    verify c alg salt seed (encrypt c (derive alg pw salt seed) n pt) pw = true := by
+  unfold verify; rw [decrypt_encrypt]; rfl
+
+theorem other_password_does_not_verify (c : CipherId) (alg : Nat) (pw pw' salt : Bytes)
+    (seed : Option Bytes) (n : Nat) (pt : Bytes) (h : pw' ++ seed.getD [] ≠ pw ++ seed.getD []) :
+    verify c alg salt seed (encrypt c (derive alg pw salt seed) n pt) pw' = false := by
+  unfold verify; rw [other_password_does_not_unlock c alg pw pw' salt seed n pt h]; rfl
+
 /-- C10/4.  Across everything a key ever encrypts no nonce is used twice: after any sequence
 of encryptions all packs made carry pairwise different nonces. -/
 def sealAll (c : CipherId) (k : Key) : KeyUse → List Bytes → KeyUse
